@@ -50,6 +50,8 @@ def run(ctx):
     first = calls[0].args[0] if calls and calls[0].args else None
     ctx.check(first is not None and isinstance(first, ast.Name), 'C13.identity', construct(fn), '%s registers the object itself' % label,
               '%s registers `%s`' % (label, u(first) if first is not None else None), fn.loc(), instance=label + ':object')
+  from .common import inverse_lookup_by_equality
+  inverse_lookup_by_equality(ctx, 'C13.identity')
   dec = ctx.func('config._decorate_fn_or_cls')
   g, facts = std_facts(prog, dec)
   sets = [n for n in g.live_nodes() if any(u(c.func) == 'setattr' for c in calls_of_node(n))]
